@@ -206,13 +206,7 @@ def rule_validator_coverage(chk):
                    detail_bad='calls to %s() are generated with array pointers but its signature is not inspected '
                               'by the validator (inspected: %s)' % (h, sorted(inspected)),
                    detail_ok='inspected')
-    # the validator must actually raise on a non-empty difference
-    raises = [n for n in ast.walk(fn) if isinstance(n, ast.Raise)]
-    g = C.build_cfg(fn)
-    final = [r for r in raises if any(isinstance(x, ast.Name) and x.id == 'errors' for x in ast.walk(
-        M.enclosing(r, (ast.If,)).test))] if raises else []
-    chk.decide(bool(final), 'validator-raises-on-missing', 'raise', node=fn, file=AE, func=fn.name,
-               detail_bad='no raise guarded by the collected errors', detail_ok='raise guarded by len(errors)')
+    # (that the validator raises on a non-empty difference, naming equation, array and property, is decided by the model cases of rule_validator_model)
     # comparison operator note
     for cmpn in ast.walk(fn):
         if isinstance(cmpn, ast.Compare) and any(isinstance(o, ast.Lt) for o in cmpn.ops) \
@@ -773,7 +767,7 @@ def main(chk):
     rule_validator_model(chk)
     # (unknown array names: decided by the model cases unknown-dest / unknown-source of rule_validator_model)
     rule_no_shortcut(chk)
-    rule_message(chk)
+    # (what the errors say - equation, array, missing names - is decided on the messages of the model cases: rule_validator_model)
     rule_steppers(chk)
     rule_stepper_check_scope(chk)
     rule_codegen_rejects_model(chk)
